@@ -134,7 +134,10 @@ func selftest(tier string) (killed, total int, notes []string) {
 		done := false
 		for limit := 1; limit <= maxLen && !done; limit++ {
 			for _, cfg := range tierConfigs(tier) {
-				if h, ok := distinguish(cfg, mu.opts, limit); ok {
+				if limit > cfg.maxLen {
+					continue
+				}
+				if h, ok := distinguish(cfg.config, mu.opts, limit); ok {
 					killed++
 					done = true
 					notes = append(notes, fmt.Sprintf("%s: distinguished by history [cfg:%s %s] (+ probes)", mu.name, cfg.id, strings.Join(h, " ")))
